@@ -2,10 +2,15 @@ use crate::ctx::{machinery, Tier};
 use serde_json::Value;
 
 pub mod c01;
+pub mod c05;
+pub mod c09;
+pub mod common;
 
 pub fn run(id: &str, tier: Tier) -> i32 {
     match id {
         "C01" => c01::run(tier),
+        "C05" => c05::run(tier),
+        "C09" => c09::run(tier),
         _ => machinery(&format!("no check for property {id}")),
     }
 }
@@ -18,6 +23,8 @@ pub fn replay(id: &str, path: &str) -> i32 {
     let once = |_: u8| -> Result<(), String> {
         match id {
             "C01" => c01::replay(case),
+            "C05" => c05::replay(case),
+            "C09" => c09::replay(case),
             _ => machinery(&format!("no replay for property {id}")),
         }
     };
